@@ -51,8 +51,12 @@ def roll_mux(window, stride):
                     outer_observer.on_next(i)
                 elif isinstance(i, rs.OnCompletedMux):                    
                     kindex = i.key[0]
+                    n = i.store.get_state(state_n, (kindex, i.key))
                     i.store.set_state(state_n, (kindex, i.key), 0)
-                    for offset in range(density):
+                    # close the remaining windows in the order they were opened
+                    opened = (n + stride - 1) // stride
+                    for step in range(density):
+                        offset = (opened + step) % density
                         index = i.key[0] * density + offset
                         if i.store.get_state(state_w, (index, i.key)) != -1:
                             observer.on_next(i._replace(key=(index, i.key)))
@@ -60,8 +64,11 @@ def roll_mux(window, stride):
                     outer_observer.on_next(i)
                 elif isinstance(i, rs.OnErrorMux):
                     kindex = i.key[0]
+                    n = i.store.get_state(state_n, (kindex, i.key))
                     i.store.set_state(state_n, (kindex, i.key), 0)
-                    for offset in range(density):
+                    opened = (n + stride - 1) // stride
+                    for step in range(density):
+                        offset = (opened + step) % density
                         index = i.key[0] * density + offset
                         if i.store.get_state(state_w, (index, i.key)) != -1:
                             observer.on_next(i._replace(key=(index, i.key)))
